@@ -18,7 +18,7 @@ def interleaved_histories(r, thorough):
     seconds = ["join_other", "join_on_behalf", "leave_other", "reidentify_join"]
     combos = [(a, b, rel) for a in firsts for b in seconds for rel in ("ok", "err")]
     if not thorough:
-        combos = r.sample(combos, 8) + [("leave_last", "join_other", "ok")]
+        combos = r.sample(combos, 8) + [("leave_last", "join_other", "ok"), ("hangup_last", "reidentify_join", "ok"), ("hangup_last", "reidentify_join", "err")]
     for first, second, rel in combos:
         cfg = sl.base_cfg(r, {"ops": ["fwd-event"], "proto": "P/1"})
         cfg.update({"max_clients": 10, "max_subs": 10, "max_conns": 16, "max_channels": 100, "max_inflight": 10})
@@ -54,6 +54,8 @@ def interleaved_histories(r, thorough):
             g.conns[4] = {"phase": 2, "user": "alice"}
         g.ops.append({"t": "release", "id": 1, "outcome": rel})
         g.ops.append({"t": "advance", "ms": 50})
+        # every user that is connected now must be reachable by a pushed direct payload (C17), whatever was interleaved
+        g.ops.append({"t": "m2s_direct", "targets": [u.encode().hex() for u in ("alice", "bob", "carol")], "payload": b"after-the-race".hex()})
         ops = g.ops + srvmon.audit_ops(g)
         cases.append({"cfg": cfg, "ops": ops, "nomodel": True})
     return cases
